@@ -213,12 +213,17 @@ func ExecC(c CCase) (res core.Result) {
 		stopW = make(chan struct{})
 		xids  atomic.Uint32
 	)
+	abort := make(chan struct{})
+	var abortOnce sync.Once
 	report := func(v *core.Violation) {
 		mu.Lock()
 		if viol == nil {
 			viol = v
 		}
 		mu.Unlock()
+		if strings.HasSuffix(v.Signature, "/panic") {
+			abortOnce.Do(func() { close(abort) })
+		}
 	}
 	one4 := func(s Send) {
 		xid := xids.Add(1)
@@ -351,11 +356,18 @@ func ExecC(c CCase) (res core.Result) {
 		}()
 	}
 	close(start)
-	wg.Wait()
+	finished := core.WaitTimeout(&wg, abort, 90*time.Second)
 	close(stopW)
 	wwg.Wait()
-	if viol != nil {
-		res.Viol = viol
+	mu.Lock()
+	v := viol
+	mu.Unlock()
+	if v != nil {
+		res.Viol = v
+		return
+	}
+	if !finished {
+		res.Viol = core.Violate("C16/wedged", "handler calls did not return within 90 s under concurrent load")
 		return
 	}
 	// ---- serial-equivalence invariants
